@@ -364,7 +364,7 @@ func c7Names(c *Ctx) {
 				continue
 			}
 			for _, alt := range valueAlternatives(st.Instr.Val, st.Instr.Block()) {
-				d := Desc(alt.val)
+				d := alt.desc
 				unnamed := containsS(alt.conds, rcv+`.name == ""`)
 				named := containsS(alt.conds, rcv+`.name != ""`)
 				switch {
@@ -442,26 +442,61 @@ func c7Lazy(c *Ctx) {
 
 type valAlt struct {
 	val   ssa.Value
+	desc  string
 	conds []string
 }
 
 // valueAlternatives resolves a value that is a phi (conditional assignment)
-// into its alternatives with the conditions of the incoming edges; a non-phi
-// value has one alternative under the guards of the using block.
+// or the result of a side-effect-free helper into its alternatives, each with
+// the conditions under which it is chosen (in the caller's terms).
 func valueAlternatives(v ssa.Value, at *ssa.BasicBlock) []valAlt {
+	return valueAlts(v, at, 0)
+}
+
+func valueAlts(v ssa.Value, at *ssa.BasicBlock, depth int) []valAlt {
+	if call, ok := v.(*ssa.Call); ok && depth < 3 {
+		if h := call.Call.StaticCallee(); h != nil && curProgRoot(h) && len(h.Blocks) > 0 && h.Signature.Results().Len() == 1 && sideEffectFree(h, 0) && Eligible(h) {
+			env := map[*ssa.Parameter]string{}
+			for i, a := range call.Call.Args {
+				if i < len(h.Params) {
+					env[h.Params[i]] = Desc(a)
+				}
+			}
+			descEnv = append(descEnv, env)
+			var out []valAlt
+			for _, r := range Returns(h) {
+				for _, alt := range valueAlts(RetVals(r)[0], r.Block(), depth+1) {
+					out = append(out, alt)
+				}
+			}
+			descEnv = descEnv[:len(descEnv)-1]
+			base := AtomStrings(GuardsOfBlock(at))
+			for i := range out {
+				out[i].conds = append(append([]string{}, out[i].conds...), base...)
+			}
+			return out
+		}
+	}
 	ph, ok := v.(*ssa.Phi)
 	if !ok {
-		return []valAlt{{v, AtomStrings(GuardsOfBlock(at))}}
+		return []valAlt{{v, Desc(v), AtomStrings(GuardsOfBlock(at))}}
 	}
 	var out []valAlt
 	for j, e := range ph.Edges {
 		pred := ph.Block().Preds[j]
 		conds := append(AtomStrings(GuardsOfBlock(pred)), AtomStrings(edgeAtoms(pred, ph.Block()))...)
 		if inner, isPhi := e.(*ssa.Phi); isPhi && inner != ph {
-			out = append(out, valueAlternatives(inner, pred)...)
+			out = append(out, valueAlts(inner, pred, depth+1)...)
 			continue
 		}
-		out = append(out, valAlt{e, conds})
+		if _, isCall := e.(*ssa.Call); isCall {
+			for _, alt := range valueAlts(e, pred, depth+1) {
+				alt.conds = append(append([]string{}, alt.conds...), conds...)
+				out = append(out, alt)
+			}
+			continue
+		}
+		out = append(out, valAlt{e, Desc(e), conds})
 	}
 	return out
 }
